@@ -1,8 +1,161 @@
 /-
   C03 — version strings parse to their parts and render back without loss.
+  Property theorems only; lemmas live in GoDebian/Lemmas.
 -/
 import GoDebian.Model.Version
 import GoDebian.Spec.VersionParse
+import GoDebian.Lemmas.VersionParse
+import GoDebian.Lemmas.VersionParseSpec
 
 namespace GoDebian.Props.C03
+open GoDebian GoDebian.Version
+
+/-! ### round trip -/
+
+/-- Whatever the parser accepts is printed (by `String`, `MarshalText`, JSON) as a string
+    that parses back to the same three parts. -/
+theorem C03_roundtrip (s : Bytes) (v : Version) (h : parse s = .ok v) :
+    parse (toString v) = .ok v ∧ parse (marshalText v) = .ok v ∧
+      jsonDecode (jsonEncode v) = .ok v :=
+  have hp := Lemmas.VersionParse.parse_toString (Lemmas.VersionParse.parse_wf h)
+  ⟨hp, hp, (Lemmas.VersionParse.jsonDecode_jsonEncode v).trans hp⟩
+
+example :
+    parse (Bytes.ofString "  1:2.30-10+deb11u1\n") =
+      .ok ⟨1, Bytes.ofString "2.30", Bytes.ofString "10+deb11u1"⟩ := by
+  decide +kernel
+
+/-- Epoch 0 with a colon in the upstream part and an empty revision after a hyphen: the
+    printer keeps "0:" and the trailing "-". -/
+example :
+    parse (Bytes.ofString "0:1:2-3-") = .ok ⟨0, Bytes.ofString "1:2-3", []⟩ ∧
+    Version.toString ⟨0, Bytes.ofString "1:2-3", []⟩ = Bytes.ofString "0:1:2-3-" := by
+  decide +kernel
+
+/-- The text is not always reproduced (leading zeros, "+", "-0" in the epoch), the parts
+    are. -/
+example :
+    parse (Bytes.ofString "+007:1") = .ok ⟨7, [49], []⟩ ∧
+    Version.toString ⟨7, [49], []⟩ = Bytes.ofString "7:1" ∧
+    parse (Bytes.ofString "-0:1") = .ok ⟨0, [49], []⟩ := by
+  decide +kernel
+
+/-- What every parser output satisfies (the hypothesis under which printing is
+    loss-free). -/
+theorem C03_output_invariant (s : Bytes) (v : Version) (h : parse s = .ok v) :
+    v.epoch < 2^63 ∧ (∃ c rest, v.upstream = c :: rest ∧ cisdigit c = true) ∧
+      (∀ c ∈ v.upstream, upstreamChar c = true) ∧ (∀ c ∈ v.revision, revisionChar c = true) :=
+  have hwf := Lemmas.VersionParse.parse_wf h
+  ⟨hwf.epoch_lt, Lemmas.VersionParse.partsOK_iff.mp hwf.parts⟩
+
+/-! ### agreement with the specification -/
+
+/-- Every string the specification accepts is parsed to the parts it names. -/
+theorem C03_accepts (s : Bytes) (v : Version)
+    (h : Spec.VersionParse.verdict s = some (.accept v)) : parse s = .ok v :=
+  Lemmas.VersionParse.parse_of_accept h
+
+example :
+    Spec.VersionParse.verdict (Bytes.ofString "\t0012:1.2-3:4-5~rc1 ") =
+      some (.accept ⟨12, Bytes.ofString "1.2-3:4", Bytes.ofString "5~rc1"⟩) := by
+  decide +kernel
+
+/-- Every string the specification rejects is rejected with an error: empty or blank,
+    embedded white space, empty / non-numeric / negative / oversized epoch, nothing after
+    the colon, empty upstream part, a non-digit first character, a character outside the
+    alphabet of its part. -/
+theorem C03_rejects (s : Bytes) (h : Spec.VersionParse.verdict s = some .reject) :
+    parse s = .error .err :=
+  Lemmas.VersionParse.parse_of_reject h
+
+/-- One witness per rejection class. -/
+example :
+    [" \n", "1 2", ":1", "a:1", "1x:1", "-1:1", "-:1", "9223372036854775808:1", "1:", "1:-2",
+      "-2", "a1", "1:a", "1_2", "1.0-1_2", "1.0-1:2", "1 2"].all
+      (fun s => Spec.VersionParse.verdict (Bytes.ofString s) == some .reject) = true := by
+  decide +kernel
+
+/-- The largest epoch is accepted; signed epochs are left open by the specification. -/
+example :
+    Spec.VersionParse.verdict (Bytes.ofString "9223372036854775807:1") =
+      some (.accept ⟨2^63 - 1, [49], []⟩) ∧
+    Spec.VersionParse.verdict (Bytes.ofString "+5:1") = none ∧
+    Spec.VersionParse.verdict (Bytes.ofString "-00:1") = none := by
+  decide +kernel
+
+/-! ### grammar form -/
+
+/-- White space: a concatenation of UTF-8 encodings of Unicode `White_Space` runes
+    (`TrimLeft` with `unicode.IsSpace` erases it completely). -/
+def IsSpaces (w : Bytes) : Prop := Str.trimLeftSpace w = []
+
+instance (w : Bytes) : Decidable (IsSpaces w) := inferInstanceAs (Decidable (_ = _))
+
+example : IsSpaces [] ∧ IsSpaces (Bytes.ofString "\t \n\u00a0") ∧
+    IsSpaces (Bytes.ofString " \r\u3000\u0085\u2028\u200a") ∧
+    ¬ IsSpaces (Bytes.ofString " x") ∧ ¬ IsSpaces [0xC2] ∧ ¬ IsSpaces [0xE2, 0x80, 0x8B] := by
+  decide +kernel
+
+/-- Every well-formed version in its full textual form — any white space around it, any
+    number of leading zeros in the epoch — parses to its three parts. -/
+theorem C03_parse_grammar (e : Nat) (u r w1 w2 : Bytes) (zeros : Nat) (he : e < 2^63)
+    (hu : ∃ c rest, u = c :: rest ∧ cisdigit c = true) (hua : ∀ c ∈ u, upstreamChar c = true)
+    (hra : ∀ c ∈ r, revisionChar c = true) (hw1 : IsSpaces w1) (hw2 : IsSpaces w2) :
+    parse (w1 ++ List.replicate zeros 48 ++ Str.fmtNat e ++ [58] ++ u ++ [45] ++ r ++ w2)
+      = .ok ⟨e, u, r⟩ := by
+  have := Lemmas.VersionParse.parse_render w1 w2 zeros (some e) u (some r) hw1 hw2 he
+    (Lemmas.VersionParse.partsOK_iff.mpr ⟨hu, hua, hra⟩) (by simp) (by simp)
+  simpa [Lemmas.VersionParse.render, Lemmas.VersionParse.epochPart,
+    Lemmas.VersionParse.revPart, List.append_assoc] using this
+
+example :
+    let u := Bytes.ofString "1.2-3:4"
+    let r := Bytes.ofString "5~rc1+b2"
+    (∃ c rest, u = c :: rest ∧ cisdigit c = true) ∧ (∀ c ∈ u, upstreamChar c = true) ∧
+      (∀ c ∈ r, revisionChar c = true) := by
+  refine ⟨⟨49, Bytes.ofString ".2-3:4", ?_, ?_⟩, ?_, ?_⟩ <;> decide +kernel
+
+/-- The epoch may be omitted when it is 0 and the upstream part has no ':'. -/
+theorem C03_parse_grammar_short_no_epoch (u r w1 w2 : Bytes)
+    (hu : ∃ c rest, u = c :: rest ∧ cisdigit c = true) (hua : ∀ c ∈ u, upstreamChar c = true)
+    (hra : ∀ c ∈ r, revisionChar c = true) (hcolon : 58 ∉ u)
+    (hw1 : IsSpaces w1) (hw2 : IsSpaces w2) :
+    parse (w1 ++ u ++ [45] ++ r ++ w2) = .ok ⟨0, u, r⟩ := by
+  have := Lemmas.VersionParse.parse_render w1 w2 0 none u (some r) hw1 hw2 (by simp)
+    (Lemmas.VersionParse.partsOK_iff.mpr ⟨hu, hua, hra⟩) (fun _ => hcolon) (by simp)
+  simpa [Lemmas.VersionParse.render, Lemmas.VersionParse.epochPart,
+    Lemmas.VersionParse.revPart, List.append_assoc] using this
+
+/-- The revision, hyphen included, may be omitted when it is empty and the upstream part
+    has no '-'. -/
+theorem C03_parse_grammar_short_no_revision (e : Nat) (u w1 w2 : Bytes) (zeros : Nat)
+    (he : e < 2^63)
+    (hu : ∃ c rest, u = c :: rest ∧ cisdigit c = true) (hua : ∀ c ∈ u, upstreamChar c = true)
+    (hhyphen : 45 ∉ u) (hw1 : IsSpaces w1) (hw2 : IsSpaces w2) :
+    parse (w1 ++ List.replicate zeros 48 ++ Str.fmtNat e ++ [58] ++ u ++ w2)
+      = .ok ⟨e, u, []⟩ := by
+  have := Lemmas.VersionParse.parse_render w1 w2 zeros (some e) u none hw1 hw2 he
+    (Lemmas.VersionParse.partsOK_iff.mpr ⟨hu, hua, by simp⟩) (by simp) (fun _ => hhyphen)
+  simpa [Lemmas.VersionParse.render, Lemmas.VersionParse.epochPart,
+    Lemmas.VersionParse.revPart, List.append_assoc] using this
+
+/-- Both may be omitted: a bare upstream version. -/
+theorem C03_parse_grammar_short_bare (u w1 w2 : Bytes)
+    (hu : ∃ c rest, u = c :: rest ∧ cisdigit c = true) (hua : ∀ c ∈ u, upstreamChar c = true)
+    (hcolon : 58 ∉ u) (hhyphen : 45 ∉ u) (hw1 : IsSpaces w1) (hw2 : IsSpaces w2) :
+    parse (w1 ++ u ++ w2) = .ok ⟨0, u, []⟩ := by
+  have := Lemmas.VersionParse.parse_render w1 w2 0 none u none hw1 hw2 (by simp)
+    (Lemmas.VersionParse.partsOK_iff.mpr ⟨hu, hua, by simp⟩) (fun _ => hcolon)
+    (fun _ => hhyphen)
+  simpa [Lemmas.VersionParse.render, Lemmas.VersionParse.epochPart,
+    Lemmas.VersionParse.revPart, List.append_assoc] using this
+
+/-- The omission conditions cannot be dropped: a ':' in the upstream part of an
+    epoch-less string is taken for the epoch separator, a '-' in the upstream part of a
+    revision-less string for the revision separator. -/
+example :
+    parse (Bytes.ofString "1:2-3") ≠ .ok ⟨0, Bytes.ofString "1:2", [51]⟩ ∧
+    parse (Bytes.ofString "1-2") ≠ .ok ⟨0, Bytes.ofString "1-2", []⟩ := by
+  decide +kernel
+
 end GoDebian.Props.C03
